@@ -260,6 +260,12 @@ _parse_cache = {}
 def parse(s):
     if s in _parse_cache:
         return _parse_cache[s]
+    m = re.fullmatch(r"auto (\(.*\)(?: const)?(?: noexcept)?) -> (.+)", s)
+    if m:
+        # trailing return type, as clang prints the operator() of a lambda written without a parameter list
+        t = parse("%s %s" % (m.group(2), m.group(1)))
+        _parse_cache[s] = t
+        return t
     p = _P(tokenize(s), s)
     t = p.parse_type()
     if p.peek() is not None:
@@ -268,7 +274,8 @@ def parse(s):
     return t
 
 
-SMART_PTRS = {"intrusive_ptr", "unique_ptr", "shared_ptr", "weak_ptr"}
+SMART_PTRS = {"intrusive_ptr", "unique_ptr", "shared_ptr", "weak_ptr",
+              "__shared_ptr", "__shared_ptr_access"}  # the last two: libstdc++ bases of shared_ptr (operator->, reset, bool)
 SEQS = {"vector", "deque", "list"}
 SEQ_ITERS = {"__normal_iterator", "_Deque_iterator", "_List_iterator", "_List_const_iterator"}
 # iterators of the map/set models: pointer to the entry (pair) / key
@@ -326,6 +333,16 @@ class TypeMap:
     def resolve(self, t):
         """Expand learned typedef names at the top of t (not builtin-like)."""
         seen = 0
+        if t.kind == "named" and not t.args and t.name.endswith(">::element_type"):
+            # member typedef of a smart pointer (shared_ptr<T>::element_type as clang prints operator->): T
+            try:
+                owner = parse(t.name[:-len("::element_type")])
+            except Unsupported:
+                owner = None
+            if owner is not None and owner.kind == "named" and owner.last in SMART_PTRS and owner.args:
+                e = owner.args[0]
+                return T(e.kind, name=e.name, args=e.args, to=e.to, n=e.n, ret=e.ret, params=e.params,
+                         const=e.const or t.const)
         while t.kind == "named" and not t.args and t.name in self.typedefs and seen < 10:
             const = t.const
             t = parse(self.typedefs[t.name])
@@ -402,6 +419,10 @@ class TypeMap:
             return "vf_fnptr"
         if k == "lit":
             raise Unsupported("literal as type")
+        if not t.args and t.name and t.name.endswith(">::element_type"):
+            r = self.resolve(t)  # smart_ptr<T>::element_type -> T
+            if r is not t:
+                return self.c(r)
         name = t.name
         if name in ("bool", "_Bool"):
             return "_Bool"
@@ -481,6 +502,8 @@ class TypeMap:
             return self.scalar_classes[last]["ctype"]
         if last in ("mersenne_twister_engine", "mt19937"):
             return "struct vf_mt19937"
+        if name in ("std::mutex", "std::recursive_mutex"):
+            return "struct vf_std_mutex"  # stateless in the sequential model: lock/unlock are dropped (libmap)
         if last == "exception_ptr" and not t.args and name.startswith("std::"):
             return "vf_excptr"  # std::exception_ptr: the KIND of the stored exception (0 = null, VF_EXC_<Type>)
         if last == "result_type" and "mersenne_twister_engine" in name:
